@@ -21,6 +21,32 @@ var probeNames = map[int]string{
 
 var probes [prEnd]int64
 
+// per-task cache counters (index maxTasks: outside the scheduler)
+var taskCache [maxTasks + 1][2]int64
+
+//go:norace
+func taskCacheAdd(site int) {
+	t := maxTasks
+	if sh.active && sh.cur >= 0 {
+		t = sh.cur
+	}
+	switch site {
+	case siteCacheHit:
+		taskCache[t][0]++
+	case siteCacheStore:
+		taskCache[t][1]++
+	}
+}
+
+//go:norace
+func taskCacheGet() (hits, stores int64) {
+	t := maxTasks
+	if sh.active && sh.cur >= 0 {
+		t = sh.cur
+	}
+	return taskCache[t][0], taskCache[t][1]
+}
+
 //go:norace
 func probeAdd(i int, n int64) { probes[i] += n }
 
